@@ -96,9 +96,12 @@ func VerifC19Diag() {
 		case 0: // bad character in a change name
 			b.str("@")
 			b.spaces(sp)
-			shape := nd.Choose("nameshape", 3) // ab<x>c | <x> alone | <x>bc
+			shape := nd.Choose("nameshape", 4) // ab<x>c | <x> alone | <x>bc | na\u00efve<x>c (a multi-byte letter before the bad one)
 			if shape == 0 {
 				b.str("ab")
+			}
+			if shape == 3 {
+				b.str("na\u00efve") // the column counts bytes: the 2-byte letter advances it by 2
 			}
 			fl, fc = b.line, b.col
 			x := nd.Byte("badch")
@@ -107,7 +110,7 @@ func VerifC19Diag() {
 			nd.Assume(nd.Not(nd.Or(nd.Or(nd.And(x >= 'a', x <= 'z'), nd.And(x >= 'A', x <= 'Z')), nd.Or(nd.And(x >= '0', x <= '9'), x == '_'))))
 			b.sym(x)
 			switch shape {
-			case 0:
+			case 0, 3:
 				b.str("c @\n")
 			case 1:
 				b.str(" @\n")
